@@ -132,7 +132,21 @@ fn one(bytes: &[u8]) -> String {
             out.push_str(&g("rcvd", || hex(m.bgp_open_rcvd().as_ref())));
             out.push_str(&g("both", || { let (s, r) = m.bgp_open_sent_rcvd(); format!("{}/{}", hex(s.as_ref()), hex(r.as_ref())) }));
             out.push_str(&g("tlvs", || capped(m.information_tlvs(), |t| format!("{}/{:?}:{}", u16::from(t.typ()), t.typ(), hex(t.value())))));
-            out.push_str(&g("cfg", || { let _ = m.pph_session_config(); let _ = m.session_config(); let _ = m.supported_protocols(); "ok".into() }));
+            out.push_str(&g("cfg", || {
+                // the two derivations of the session configuration (with / without the per-peer header) differ in where the
+                // four-octet setting comes from, never in the ADD-PATH directions (what these are is C12); a station reuses the
+                // result for every Route Monitoring message of the peer
+                let (a, _) = m.pph_session_config();
+                let b = m.session_config();
+                let _ = m.supported_protocols();
+                use routecore::bgp::types::AfiSafiType as F;
+                let fams = [F::Ipv4Unicast, F::Ipv6Unicast, F::Ipv4Multicast, F::Ipv6Multicast, F::Ipv4MplsUnicast, F::Ipv6MplsUnicast,
+                            F::Ipv4MplsVpnUnicast, F::Ipv6MplsVpnUnicast, F::Ipv4RouteTarget, F::Ipv4FlowSpec, F::Ipv6FlowSpec, F::L2VpnVpls, F::L2VpnEvpn];
+                match fams.iter().find(|f| a.get_addpath(**f) != b.get_addpath(**f)) {
+                    None => "ok".into(),
+                    Some(f) => format!("DIFF:{:?}:{:?}/{:?}", f, a.get_addpath(*f), b.get_addpath(*f)).replace(' ', ""),
+                }
+            }));
         }
         Message::InitiationMessage(m) => {
             out.push_str("IN");
